@@ -72,6 +72,7 @@ fn props() -> Vec<Prop> {
         Prop { id: "E02", run: e02::run, gen: e02::gen },
         Prop { id: "E04", run: e04::run, gen: e04::gen },
         Prop { id: "E05", run: e05::run, gen: e05::gen },
+        Prop { id: "E06", run: c13::run, gen: c13::gen_e06 },
     ]
 }
 
